@@ -126,7 +126,12 @@ def build_gmx2(sim, mw):
     market = GmxV2Market(key, GmxV2Pool(lt, st, it))
     cfg = v2_config_of(mw)
     # market configuration is an input of the world ("configurations" quantifier)
-    market.pool_config = PoolConfig(lt.decimal, st.decimal, **{k: float(cfg[k]) for k in V2_CONFIG_FIELDS})
+    if mw.get("config_how") == "in_place":
+        # the user adjusts the factors on the configuration object the market came with, field by field
+        for k in V2_CONFIG_FIELDS:
+            setattr(market.pool_config, k, float(cfg[k]))
+    else:
+        market.pool_config = PoolConfig(lt.decimal, st.decimal, **{k: float(cfg[k]) for k in V2_CONFIG_FIELDS})
     market.data = v2_frame(mw, sim.index)
     sim.mdata[mw["name"]] = {"mw": mw, "kind": "gmx2"}
     return market
@@ -452,6 +457,8 @@ def gen_gmx2_market(rng, name, n, prices, long="WETH", short="USDC", index=None,
     mw = {"kind": "gmx2", "name": name, "long": long, "short": short, "index": index}
     if config:
         mw["config"] = dict(config)
+        if rng.random() < 0.35:
+            mw["config_how"] = "in_place"  # factors set field by field on the market's own configuration object
     mw.update(cols)
     if opts.get("no_virtual_inventory"):
         # a market without virtual inventory: the two cells are empty in the file, i.e. NaN in the frame
